@@ -552,30 +552,7 @@ S("c07_failing_inspect_at_breakpoint", ["C07", "C01"], "quick",
     kani::cover!(true, "reached_end");
 """, unwind=16)
 
-S("c07_failing_fn_call_at_breakpoint", ["C07", "C16"], "quick",
-  "a user-function call that fails at a breakpoint leaves no frame (and no parameter binding) behind; the error names the function body's line",
-  "5 DEF FNB(Q) = 1 / 0 registered; breakpoint pending with 2 frames; expression FNB(1) evaluated in immediate mode fails; frames must still be 2",
-  f"""
-    let mut i = Interpreter::default();
-    {L(5, "DEF FNB(Q) = 1 / 0")}
-    {L(20, "Y = 7")}
-    i.program.run_from_first_numbered_line();
-    pa::add_function(&mut i.program, "FNB", "Q", 5, {idx("DEF FNB(Q) =")});
-    pa::push_frames(&mut i.program, 2, 20);
-    resume_at(&mut i, 20, 0);
-    i.break_at_current_location();
-    i.program.set_and_goto_immediate_line({vec("FNB(1)")});
-    let res = i.evaluate_expression();
-    match &res {{
-        Err(e) => assert!(err_code(&e.error) == E_DIVZERO, "c07: the function body fails with DIVISION BY ZERO"),
-        Ok(_) => panic!("c07: 1/0 must fail"),
-    }}
-    assert!(pa::stack_len(&i.program) == 2, "c07 failing-fn: a failed function call must not leave its frame on the stack");
-    assert!(pa::at_immediate(&i.program), "c07 failing-fn: after the failed call the cursor is back in the calling (immediate) line");
-    assert!(pa::breakpoint(&i.program).is_some());
-    core::mem::forget(res);
-    kani::cover!(true, "reached_end");
-""", unwind=16)
+
 S("c07_assign_at_breakpoint", ["C07"], "quick",
   "assigning at a breakpoint changes exactly that variable; CONT resumes where the program stopped",
   "dirty state, break at (20,0); immediate X = v (v any non-NaN); CONT",
@@ -899,8 +876,8 @@ c16_typed("c16_typed_array_cell", 'A(1) = "A"', "A", "E_TYPE", 'assert!(cell(&mu
 # ------------------------------------------------------------------------------------------------
 # C17
 # ------------------------------------------------------------------------------------------------
-def c17(name, setup, text, checks, what, numbered=True):
-    S(name, ["C17"], "quick",
+def c17(name, setup, text, checks, what, numbered=True, tier="quick"):
+    S(name, ["C17"], tier,
       "enabling tracing / warnings changes nothing but the Trace / Warning records: %s" % what,
       "two interpreters, flags (t,w) any booleans vs (false,false); same pre-state; statement: %s" % text,
       f"""
@@ -931,10 +908,6 @@ def c17(name, setup, text, checks, what, numbered=True):
     core::mem::forget(a);
 """, unwind=16, timeout=1200, mem=8000, cost=150)
 
-c17("c17_read_unassigned_variable", "", "X = Y + 1", """
-    assert!(num(&a, "X") == num(&i, "X") && has_var(&a, "Y") == has_var(&i, "Y"), "c17: same variables");
-    assert!(count_kind(&i, O_WARNING) == if w { 1 } else { 0 }, "c17: a warning exactly when an unassigned variable is read and warnings are on");
-""", "reading a never-assigned variable")
 c17("c17_read_assigned_variable", '    set_num(&mut a, "Y", 3.0); set_num(&mut i, "Y", 3.0);', "X = Y + 1", """
     assert!(num(&a, "X") == 4.0 && num(&i, "X") == 4.0);
     assert!(count_kind(&i, O_WARNING) == 0, "c17: no warning for an assigned variable");
@@ -943,16 +916,56 @@ c17("c17_array_read_absent", "", "X = A(1)", """
     assert!(has_array(&a, "A") && has_array(&i, "A"), "c17: the array is created either way");
     assert!(num(&a, "X") == num(&i, "X"));
     assert!(count_kind(&i, O_WARNING) == if w { 1 } else { 0 }, "c17: a warning exactly when an absent array is touched and warnings are on");
-""", "touching an array that does not exist yet (read)")
+""", "touching an array that does not exist yet (read)", tier="thorough")
 c17("c17_array_write_absent", "", "A(1) = 2", """
     assert!(has_array(&a, "A") && has_array(&i, "A"));
     assert!(cell(&mut a, "A", 1) == 2.0 && cell(&mut i, "A", 1) == 2.0);
     assert!(count_kind(&i, O_WARNING) == if w { 1 } else { 0 }, "c17: a warning exactly when an absent array is written and warnings are on");
-""", "touching an array that does not exist yet (write)")
+""", "touching an array that does not exist yet (write)", tier="thorough")
 c17("c17_for_statement", "", "FOR I = 1 TO 3", """
     assert!(num(&a, "I") == num(&i, "I"));
     assert!(count_kind(&i, O_WARNING) == 0);
 """, "FOR")
+
+def c17_single(name, text, checks, what):
+    S(name, ["C17"], "quick",
+      "the outcome of the statement is the same for every (tracing, warnings) combination (one interpreter, flags symbolic, outcome compared with flag-independent expected values): %s" % what,
+      "flags (t,w) any booleans; statement: %s" % text,
+      f"""
+    let t: bool = kani::any(); let w: bool = kani::any();
+    let mut i = Interpreter::default();
+    i.enable_tracing = t; i.enable_warnings = w;
+    {L(10, text)}
+    {L(20, "END")}
+    i.program.run_from_first_numbered_line();
+    resume_at(&mut i, 10, 0);
+    let e = stmt(&mut i);
+    assert!(count_kind(&i, O_TRACE) == if t {{ 1 }} else {{ 0 }}, "c17: one trace record iff tracing");
+    assert!(count_kind(&i, O_PRINT) == 0);
+{checks}
+    kani::cover!(t && w, "reached_both_on");
+    kani::cover!(!t && !w, "reached_both_off");
+""", unwind=16, timeout=900, mem=6000, cost=100)
+
+c17_single("c17_read_unassigned_variable_any_flags", "X = Y + 1", """
+    assert!(e.is_none() && num(&i, "X") == 1.0 && !has_var(&i, "Y"), "c17: an unassigned variable reads as 0 whatever the flags, and is not created");
+    assert!(count_kind(&i, O_WARNING) == if w { 1 } else { 0 }, "c17: a warning exactly when an unassigned variable is read and warnings are on");
+""", "reading a never-assigned variable")
+c17_single("c17_array_read_absent_any_flags", "X = A(1)", """
+    assert!(e.is_none(), "c17: reading a cell of an absent array succeeds whatever the flags");
+    assert!(has_array(&i, "A"), "c17: the array is created whatever the flags");
+    assert!(num(&i, "X") == 0.0);
+    assert!(count_kind(&i, O_WARNING) == if w { 1 } else { 0 }, "c17: a warning exactly when an absent array is touched and warnings are on");
+""", "reading an array that does not exist yet")
+c17_single("c17_array_read_out_of_range_any_flags", "X = A(11)", """
+    assert!(e == Some((E_SUBSCRIPT, Some(10))), "c17: an out-of-range read of an absent array is BAD SUBSCRIPT whatever the flags");
+    assert!(has_array(&i, "A") && !has_var(&i, "X"));
+""", "out-of-range read of an array that does not exist yet")
+c17_single("c17_array_write_absent_any_flags", "A(1) = 2", """
+    assert!(e.is_none() && has_array(&i, "A"));
+    assert!(count_kind(&i, O_WARNING) == if w { 1 } else { 0 }, "c17: a warning exactly when an absent array is written and warnings are on");
+    assert!(cell(&mut i, "A", 1) == 2.0);
+""", "writing an array that does not exist yet")
 
 S("c17_no_trace_for_immediate_lines", ["C17"], "quick",
   "trace records are emitted for numbered lines only",
